@@ -3,6 +3,7 @@
   region codes, `intersect`, and the specification of the inner loop `segLoop` (both modes).
 -/
 import Orb.Clip
+import OrbProofs.ClipLoop
 import Mathlib.Algebra.Order.Field.Basic
 import Mathlib.Tactic.Linarith
 import Mathlib.Tactic.Ring
